@@ -328,6 +328,30 @@ UdtCase(q) ==
   IN Out(Env("RESULT_ROWS", q.v, 0, 1, 0, [meta |-> MkMeta(types, q.g, FALSE, q.n), rows |-> URows(sh, pos)]),
          TRUE, <<UPlan(sh, pos)>>, PrepFor(q.v, types, q.g))
 
+\* ------------------------------------------------------------------ BIG: collection cells at the limits of the v1/v2 [short] framing (an
+\* element of 32768..65535 bytes, 32768 or more elements), the same cells on v3+, a second column and
+\* a second row behind them (a mis-read length shifts everything that follows)
+BigBlob(n, ch) == [j \in 1 .. n |-> IF j = 1 THEN ch ELSE IF j = n THEN ch + 1 ELSE ch + 2]
+BigVariants == <<"list_elem", "map_elem", "list_count", "set_max">>
+BigType(bv) == CASE bv = "list_elem" -> TyList(TBlob) [] bv = "map_elem" -> TyMap(TInt, TBlob)
+                 [] bv = "list_count" -> TyList(TInt) [] bv = "set_max" -> TySet(TBlob)
+BigPlan(bv) == [kind |-> CASE bv \in {"list_elem", "set_max"} -> "list_blob" [] bv = "map_elem" -> "map_int_blob" [] bv = "list_count" -> "list_int",
+                elems |-> <<>>]
+BigCell(v, bv, r) ==
+  CASE bv = "list_elem" -> IF r = 1 THEN CListBlob(v, <<<<1, 2, 3>>, BigBlob(40000, 65), <<9, 9>>>>) ELSE CListBlob(v, <<<<7>>, <<>>>>)
+    [] bv = "map_elem" -> IF r = 1 THEN CMapIntBlob(v, <<1, 2>>, <<BigBlob(32768, 70), <<5, 6>>>>) ELSE CMapIntBlob(v, <<3>>, <<<<8>>>>)
+    [] bv = "list_count" -> IF r = 1 THEN CListIntBig(v, [j \in 1 .. 32768 |-> j - 5]) ELSE CListInt(v, <<4, 5>>)
+    [] bv = "set_max" -> IF r = 1 THEN CListBlob(v, <<BigBlob(65535, 80)>>) ELSE CListBlob(v, <<BigBlob(32767, 90), <<1>>>>)
+BigParams == {q \in [fam : {"BIG"}, v : 1 .. 4, bv : 1 .. 4, n : BOOLEAN] :
+                /\ q.v >= 2 \/ ~q.n
+                /\ Thorough \/ (q.v <= 2 /\ q.n = (q.v = 2)) \/ (q.v = 3 /\ q.bv = 1 /\ ~q.n)}
+BigCase(q) ==
+  LET bv == BigVariants[q.bv]
+      types == <<BigType(bv), TInt>>
+      rows == [r \in 1 .. 2 |-> <<BigCell(q.v, bv, r), CInt(100 + r)>>]
+  IN Out(Env("RESULT_ROWS", q.v, 0, 1, 0, [meta |-> MkMeta(types, TRUE, FALSE, q.n), rows |-> rows]),
+         TRUE, <<BigPlan(bv), [kind |-> "int", elems |-> <<>>]>>, PrepFor(q.v, types, TRUE))
+
 \* ------------------------------------------------------------------ PREPARED
 ReqTypes(v) == << <<>>, <<TInt>>, <<TInt, TText>>, <<TyList(TText), TMy>> >> \o
                (IF v >= 3 THEN << <<TTup>>, <<Udt(<<S_f1, S_f2>>, <<TInt, TTup>>), TInt>> >> ELSE <<>>)
@@ -352,11 +376,11 @@ PrepCase(q) ==
 \* ------------------------------------------------------------------ BFS generator
 Families == <<"SIMPLE", "ERROR", "SCHEMA", "EVENT", "TYPES", "ROWS", "PREP">>
 Init == \/ p \in SimpleParams \/ p \in ErrParams \/ p \in SchemaParams \/ p \in EventParams
-        \/ p \in TypeParams \/ p \in RowsParams \/ p \in PrepParams \/ p \in MultiParams \/ p \in UdtParams
+        \/ p \in TypeParams \/ p \in RowsParams \/ p \in PrepParams \/ p \in MultiParams \/ p \in UdtParams \/ p \in BigParams
 Next == UNCHANGED p
 Case(q) == CASE q.fam = "SIMPLE" -> SimpleCase(q) [] q.fam = "ERROR" -> ErrCase(q) [] q.fam = "SCHEMA" -> SchemaCase(q)
              [] q.fam = "EVENT" -> EventCase(q) [] q.fam = "TYPES" -> TypeCase(q) [] q.fam = "ROWS" -> RowsCase(q)
-             [] q.fam = "PREP" -> PrepCase(q) [] q.fam = "MULTI" -> MultiCase(q) [] q.fam = "UDT" -> UdtCase(q)
+             [] q.fam = "PREP" -> PrepCase(q) [] q.fam = "MULTI" -> MultiCase(q) [] q.fam = "UDT" -> UdtCase(q) [] q.fam = "BIG" -> BigCase(q)
 Emit == PrintT("CASE " \o ToJson([fam |-> p.fam] @@ Case(p)))
 
 \* ------------------------------------------------------------------ -simulate: random deeper trees
